@@ -193,3 +193,25 @@ func (n *ShardNode) WellFormed() error {
 	}
 	return nil
 }
+
+// MaxLevels is the number of HAMT levels a 64-bit hash can address with
+// log2(fanout) = w.
+func MaxLevels(w int) int { return 64 / w }
+
+// TooDeep reports whether two of the names fall into the same bucket at every
+// addressable level for log2(fanout) = w, i.e. cannot be separated by a HAMT.
+func TooDeep(names []string, w int) bool {
+	seen := map[uint64]bool{}
+	used := uint(MaxLevels(w) * w)
+	for _, n := range names {
+		p := Hash64(n)
+		if used < 64 {
+			p >>= (64 - used)
+		}
+		if seen[p] {
+			return true
+		}
+		seen[p] = true
+	}
+	return false
+}
